@@ -3,6 +3,8 @@ model (`stk.in / stk.run / stk.fire / stk.adv`) and renders its observable state
 from __future__ import annotations
 
 import asyncio
+import re
+import functools
 import ipaddress
 import random as _random
 
@@ -226,13 +228,19 @@ class ImplStack:
         """canonical name of a handle; None = asyncio plumbing that is executed eagerly (white-listed: the
         wait_cancelled helper task and gather's bookkeeping); anything unknown gets a '?' name and shows up as a divergence"""
         cb = h._callback
+        for _ in range(8):   # functools.partial / partialmethod wrappers: the wrapped function names the callback
+            if isinstance(cb, functools.partial):
+                cb = cb.func
+            else:
+                break
         s = getattr(cb, "__self__", None)
         if isinstance(s, asyncio.Task):
             q = getattr(s.get_coro(), "__qualname__", "").rsplit(".", 1)[-1]
             if q in MODELLED_TASKS:
                 return "task:" + q
             return None if q == "wait_cancelled" else "?task:" + q
-        q = getattr(cb, "__qualname__", None) or getattr(cb, "__name__", "") or repr(cb)
+        q = getattr(cb, "__qualname__", None) or getattr(cb, "__name__", "") or type(cb).__name__
+        q = re.sub(r"[^A-Za-z0-9_.<>]", "", q)   # a label only: never an address, a comma or a bracket
         last = q.rsplit(".", 1)[-1]
         if last in MODELLED_CBS:
             return last
@@ -280,11 +288,28 @@ class ImplStack:
         def tm(h):
             return "~" if h is None else str(self.loop.vseq.get(id(h), -1))
 
-        def store(ts, fmt):
-            return ";".join(f"{idx_of(a)}:" + "|".join(f"{fmt(k)}#{tm(v[1])}" for k, v in d.items()) for a, d in ts.store.items())
+        def handle_of(v):
+            """the timer handle kept with a TimedStore entry: (callback, handle) in the anchored layout; any record that
+            holds exactly one asyncio handle (or none) is read the same way"""
+            items = list(v) if isinstance(v, tuple) else list(vars(v).values())
+            hs = [x for x in items if isinstance(x, asyncio.Handle)]
+            if len(hs) > 1:
+                raise ValueError("several handles in one entry")
+            return hs[0] if hs else None
 
-        found = store(self.p.discovery.found_services, svckey)
-        subs = " ".join(f"{i}>" + store(inst.subscriptions, subkey) for i, inst in enumerate(self.instances))
+        def store(ts, fmt):
+            return ";".join(f"{idx_of(a)}:" + "|".join(f"{fmt(k)}#{tm(handle_of(v))}" for k, v in d.items()) for a, d in ts.store.items())
+
+        # the store contents are internal state (anchored in the property file); if its layout is changed beyond what is
+        # readable here the column is not compared ('?', recorded in the evidence) - behaviour is still compared event by event
+        try:
+            found = store(self.p.discovery.found_services, svckey)
+        except Exception:
+            found = "?"
+        try:
+            subs = " ".join(f"{i}>" + store(inst.subscriptions, subkey) for i, inst in enumerate(self.instances))
+        except Exception:
+            subs = "?"
         slog = ",".join(self.slog[self.slog_seen:]) if self.slog_ok else "?"
         self.slog_seen = len(self.slog)
         tx = ",".join(self.txlog[self.tx_seen:]) if self.tx_ok else "?"
